@@ -202,10 +202,24 @@ pub fn run(docs: &[Doc], cli_timeout: Option<u64>, compat: bool, scrut: &str, ba
     std::fs::create_dir_all(&tmpdir).unwrap();
     let marks = dir.path().join("marks");
     let mut mains = vec![]; let mut pres = vec![]; let mut apps = vec![];
+    // in one run of five every main document lies alone in a nested directory of its own and the DIRECTORY is given (C20: "directories"),
+    // next to files that are no documents: a text file and a backup copy, both holding a test that would fail
+    let dirmode = (docs.iter().map(|d| d.fileno).sum::<usize>() + docs.len()) % 5 == 0;
     for (i, d) in docs.iter().enumerate() {
         let name = format!("doc{}.{}", d.fileno, if d.cram { "t" } else { "md" });
+        let text = if d.cram { render_cram(d, i, &marks) } else { render_md(d, i, &marks) };
+        if dirmode && d.role == 'm' {
+            let top = format!("dir{}", i);
+            let nested = dir.path().join(&top).join("nested");
+            std::fs::create_dir_all(&nested).unwrap();
+            std::fs::write(nested.join(&name), text).unwrap();
+            std::fs::write(dir.path().join(&top).join("README.txt"), "```scrut\n$ echo not a document\nnever matches\n```\n").unwrap();
+            std::fs::write(nested.join(format!("{}.bak", name)), "```scrut\n$ echo not a document\nnever matches\n```\n").unwrap();
+            mains.push(top);
+            continue;
+        }
         let p = dir.path().join(&name);
-        std::fs::write(&p, if d.cram { render_cram(d, i, &marks) } else { render_md(d, i, &marks) }).unwrap();
+        std::fs::write(&p, text).unwrap();
         match d.role { 'm' => mains.push(name), 'p' => pres.push(p), _ => apps.push(p) }
     }
     let mut cmd = Command::new(scrut);
@@ -229,6 +243,7 @@ pub fn run(docs: &[Doc], cli_timeout: Option<u64>, compat: bool, scrut: &str, ba
                 .or_else(|| e.get("testcase").and_then(|t| t.get("title")).and_then(|t| t.as_str()).map(|s| s.to_string())).unwrap_or("?".into());
             let kind = e.get("result").and_then(|r| r.get("kind")).and_then(|k| k.as_str()).unwrap_or("?").to_string();
             let loc = e.get("location").and_then(|t| t.as_str()).unwrap_or("?").to_string();
+            let loc = if dirmode { loc.rsplit('/').next().unwrap_or("?").to_string() } else { loc };   // found inside the given directory
             let k = match kind.as_str() { "success" => "ok", "malformed_output" | "invalid_exit_code" | "internal_error" => "failed", "timeout" => "timeout", "skipped" => "skipped", _ => "?" };
             entries.push(format!("{}/{}={}", loc, title, k));
         }
@@ -244,9 +259,9 @@ pub fn run(docs: &[Doc], cli_timeout: Option<u64>, compat: bool, scrut: &str, ba
     let late = std::fs::read_to_string(dir.path().join("late")).unwrap_or_default().split_whitespace().collect::<Vec<_>>().join(",");
     let marks_s = std::fs::read_to_string(&marks).unwrap_or_default().split_whitespace().collect::<Vec<_>>().join(",");
     let leftover = std::fs::read_dir(&tmpdir).map(|d| d.filter_map(|e| e.ok()).map(|e| e.file_name().to_string_lossy().to_string()).collect::<Vec<_>>()).unwrap_or_default();
-    format!("R {}|cli_timeout={}|exit={}|json={}|{}|marks={}|leftover={}|late={}|compat={}",
+    format!("R {}|cli_timeout={}|exit={}|json={}|{}|marks={}|leftover={}|late={}|compat={}|dirs={}",
         docs.iter().map(show_doc).collect::<Vec<_>>().join(";"), cli_timeout.map_or("-".to_string(), |t| t.to_string()), code, json_ok as u8,
-        if entries.is_empty() { "-".to_string() } else { entries.join(",") }, if marks_s.is_empty() { "-".to_string() } else { marks_s }, leftover.len(), if late.is_empty() { "-".to_string() } else { late }, compat as u8)
+        if entries.is_empty() { "-".to_string() } else { entries.join(",") }, if marks_s.is_empty() { "-".to_string() } else { marks_s }, leftover.len(), if late.is_empty() { "-".to_string() } else { late }, compat as u8, dirmode as u8)
 }
 
 pub fn main(args: &[String], w: &mut dyn Write) {
